@@ -161,7 +161,7 @@ class World:
             job = self.slots[src]
             g = self.g(src)
             lazy = bool(job._statepoint_requires_init)
-            has_copy = sum(1 for x in self.group_of.values() if x == self.group_of[src]) > 1
+            has_copy = _has_live_copy(job) or sum(1 for x in self.group_of.values() if x == self.group_of[src]) > 1
             try:
                 if name == "copy":
                     new = copy.copy(job)
@@ -358,7 +358,7 @@ class World:
             self.jobs["Q"][jid] = copy.deepcopy(mj)
         elif name == "proc":
             what = op[2]
-            has_copy = sum(1 for x in self.group_of.values() if x == grp) > 1
+            has_copy = _has_live_copy(job) or sum(1 for x in self.group_of.values() if x == grp) > 1
             try:
                 blob = pickle.dumps(job)
             except BaseException as e:  # noqa
@@ -541,6 +541,15 @@ class World:
         for t, p in sorted(self.proj.items()):
             out.append({"proj": t, "cache": sorted(p._sp_cache), "read": p._sp_cache_read})
         return json.dumps(out, sort_keys=True)
+
+
+def _has_live_copy(job):
+    """Another Job object (a shallow copy, possibly one the model no longer uses) shares this handle's state point object."""
+    sp = job.__dict__.get("_statepoint")
+    try:
+        return sp is not None and len(sp._jobs) > 1
+    except Exception:
+        return False
 
 
 def _cache_digest(fn):
